@@ -23,12 +23,17 @@ import (
 
 // abciQuery issues one gRPC query through ABCI Query (last committed state).
 func abciQuery(w *World, path string, req proto.Message, resp proto.Message) error {
+	return abciQueryAt(w, path, 0, req, resp)
+}
+
+// abciQueryAt asks at a given height (0 = latest committed).
+func abciQueryAt(w *World, path string, height int64, req proto.Message, resp proto.Message) error {
 	bz, err := proto.Marshal(req)
 	if err != nil {
 		return err
 	}
 	var r abci.ResponseQuery
-	if p, _ := safely(func() { r = w.Ref.App.Query(abci.RequestQuery{Path: path, Data: bz}) }); p != "" {
+	if p, _ := safely(func() { r = w.Ref.App.Query(abci.RequestQuery{Path: path, Data: bz, Height: height}) }); p != "" {
 		return fmt.Errorf("query panicked: %s", p)
 	}
 	if r.Code != 0 {
